@@ -4,6 +4,7 @@ import os
 
 V = os.path.dirname(os.path.abspath(__file__))
 TECH = 'symbolic execution of rustc MIR to SMT (z3): per-path unsat queries over the real functions, BMC over extracted transition relations, native replay of solver models'
+SIM = "The real scheduler loop execute() (with Features::{get,is_finished,insert_retried_scenario,insert_scenarios}, FinishedRulesAndFeatures::*, Executor::{send_event,send_all_events,scenario_finished}, future::{then_yield,YieldThenReturn,YieldNow,SelectWithBiasedFirst}) is symbolically executed across polls to completion over a menu of small worlds (3-5 scenarios, serial/concurrent, rules, retry budget <= 1, limits 1/2/3/unlimited, per-attempt durations 0..2 polls, lazily delivered features, delayed retries); every outcome assignment is symbolic. Abstraction: Executor::run_scenario is replaced by a future that logs Started, is Pending a harness-chosen number of polls, fails/passes symbolically and performs the tail of run_scenario through the real callees; FuturesUnordered = FIFO ready queue; futures Mutex free when locked; model clock bounded to 2^50 ticks with delays < 2^40."
 CLAIMED = {
     'C01': dict(
         text="Bounded symbolic execution of the compiler's MIR of the verdict path; every path of the kernels is decided by z3 for all 64-bit counter values and all event shapes; lifts to any stream because the verdict is an OR over monotone counters. Counterexamples are replayed natively against the real writers before being reported.",
@@ -15,7 +16,7 @@ CLAIMED = {
         text="Every wrapper is decided against an arbitrary (recording) inner writer by symbolic execution of its real async handle_event MIR polled to completion, for a fully symbolic stream item; that is what makes nesting compositional.",
         note="Kernels: FailOnSkipped::handle_event (+ map closures, Event::map, Cucumber::scenario, with_retries) and its default predicate (tag vectors of length <= 1 quick / 2 thorough per level, symbolic contents); Repeat::skipped/failed filter closures; Repeat::handle_event with 0..2 buffered items; Tee::handle_event/write (futures::join modelled), Or::handle_event; Stats getters (Tee = max, Or = sum, forwarding). Inner futures complete after 0..1 polls (thorough: up to 2). Custom predicates/filters are opaque symbolic Booleans."),
     'C05': dict(
-        text="The retry arithmetic and the queue kernels that implement 'retry exactly on failure within budget, delayed' are decided for all 64-bit values by symbolic execution of their MIR; queue shapes are enumerated, everything inside an entry (retry options, delay, start instant, clock reading) is symbolic. Counterexamples are confirmed by an in-crate differential replay of the real private functions.",
+        text="Sequencing on the simulated real scheduler loop (attempts of one scenario never overlap, attempt k carries current=k left=N-k, next attempt exists iff failed and budget left, a delayed retry starts >= delay model-clock ticks after the failed attempt ended while ready bystanders keep being dispatched). The retry arithmetic and the queue kernels that implement 'retry exactly on failure within budget, delayed' are decided for all 64-bit values by symbolic execution of their MIR; queue shapes are enumerated, everything inside an entry (retry options, delay, start instant, clock reading) is symbolic. Counterexamples are confirmed by an in-crate differential replay of the real private functions.",
         note="Kernels: Retries::initial/next_try, RetryOptions::next_try/with_deadline/without_deadline, From<RetryOptionsWithDeadline>, left_until_retry (Instant::elapsed = arbitrary value), Features::insert_scenarios (<= 2 inserted + <= 2 queued entries, both hash-map iteration orders), Features::get (queues of <= 2 Serial x <= 2 Concurrent entries, thorough 3; limit None | 0..3). Duration/Instant abstracted to 64-bit nanoseconds; futures Mutex locks at once. NOT covered here: the sequencing inside the multi-poll coroutines run_scenario/execute (attempts do not overlap, fresh World per attempt, other scenarios keep running during the delay) - stated as outside the claim."),
     'C15': dict(
         text="The filtering kernel of Cucumber::filter_run (the stream-map closure with the composed filter it captures, obtained by running the real coroutine up to `features.map(..)`) and the real tag-expression evaluator are executed symbolically on a parsed feature; tag contents, regex and user-closure verdicts are symbolic. Counterexamples are confirmed through the real filter_run with a recording runner.",
@@ -23,6 +24,21 @@ CLAIMED = {
     'C18': dict(
         text="RetryOptions::parse_from_tags (with its apply_cli closures) and the option-merging prefix of <Basic as Runner>::run are decided on their MIR for every presence combination and all 64-bit values; counterexamples are confirmed by differential native replays (public parse_from_tags on a grid; the real runner observed under builder/CLI combinations).",
         note="Abstraction: the tag TEXT grammar (strip_prefix/split_once/parse/humantime inside the parse_tags closure) returns an arbitrary Option<(Option<usize>, Option<Duration>)> per tag list - pinned only by the repo's own nine unit tests; TagOperation::eval is replaced by a recorder (arbitrary verdict, tags it is given are checked; its semantics are decided under C15). run(): insert_features/execute intercepted, their cli / concurrency / fail_fast arguments compared with cli.or(builder) / cli || builder."),
+    'C03': dict(
+        text="The bracket bookkeeping is decided on its MIR: counting kernels from arbitrary symbolic maps (SMT arrays), closing/opening kernels for every hash-map iteration order, the ingester coroutine polled to completion, and the whole framing on the simulated real scheduler loop with an independent bracket checker. Counterexamples are confirmed in-crate or through the real runner.",
+        note="Kernels: FinishedRulesAndFeatures::{rule_scenario_finished, feature_scenario_finished} (count < 2^62, count_scenarios uninterpreted), finish_all_rules_and_features (<= 2 features x <= 2 rules, all iteration orders), start_scenarios (batches <= 3 over 2 features / 2 rules, any subset already open), insert_features (<= 2 items quick / 3 thorough, Ok/Err symbolic, 0..1 pending polls, fail_fast symbolic). " + SIM),
+    'C04': dict(
+        text="'Every supplied scenario runs, nothing else, and the run terminates' is decided on the ingester coroutine, the queue-insertion kernel (nothing lost or duplicated) and the simulated real scheduler loop including lazily delivered features; a loop head revisited within one poll without returning Pending is reported as non-termination.",
+        note="Kernels: insert_features, Features::insert (real iterator pipeline, classifier and retry resolver opaque), insert_scenarios (<= 2 inserted + <= 2 queued entries), execute() across polls joined with insert_features over a parser stream that is Pending 1..2 polls (thorough 5) before an item. The idle-spin defect found this way was repaired (fix: commit, see known_findings.txt). " + SIM),
+    'C06': dict(
+        text="The limit is decided on Features::get (never more than the requested count, free slots filled with ready entries), the option merge (CLI over builder, default Some(64)) and the slot accounting of the simulated real scheduler loop: in-flight attempts <= limit at every dispatch, for every completion order in the world menu.",
+        note="Kernels: <Basic as Default>::default, Runner::run prefix (concurrency = cli.or(builder)), Features::get (queues <= 2+2, thorough 3+3; limit None | 0..3), execute() across polls. " + SIM),
+    'C07': dict(
+        text="Serial classification (default @serial predicate over inherited tags), queue selection (a ready Serial entry is handed out alone and first) and the simulated real scheduler loop (a serial attempt dispatched alone in its batch; nothing else in flight while it runs) are decided on their MIR. The loop check exhibits the recorded finding when a serial scenario becomes ready while concurrent ones are in flight.",
+        note="Kernels: default which_scenario closure (0..1 tags per level, thorough 2, contents symbolic), Features::get, insert_scenarios, execute() across polls incl. late-serial and delayed-serial-retry worlds. Known finding role=serial-dispatched-while-concurrent-in-flight (reproduced natively). " + SIM),
+    'C08': dict(
+        text="Fail-fast is decided on the option merge (cli || builder), the ingester (stops after the first parser error) and the simulated real scheduler loop: after the loop has observed a final failure no further attempt is dispatched, every started attempt finishes, all brackets close, run-Finished is last; a retried failure does not trip it; without failures every scenario runs.",
+        note="Kernels: Runner::run prefix, insert_features, execute() across polls with fail_fast on over worlds with limits 1..3 and retry budget <= 1. " + SIM),
 }
 NA_REASON = {
     'C14': 'reporters: the facts leave through serde_json / junit-report / console styling / io::Write and the oracle is a parse-back of text; nothing of the property is left once those library calls are opaque (DESIGN.md section 3)',
